@@ -22,6 +22,7 @@ import (
 	"strings"
 	"sync"
 	"time"
+	"verifharness/internal/hx"
 
 	"github.com/tjfoc/gmsm/gmtls"
 	"github.com/tjfoc/gmsm/sm2"
@@ -37,18 +38,28 @@ type rgroup struct {
 	active  int
 	waiting map[*rq]int
 	expired bool
+	byTimer bool // expired because the wall-clock fallback fired, not because the run was provably stalled
 }
 
 func newRGroup(participants int, d time.Duration) *rgroup {
 	g := &rgroup{active: participants, waiting: map[*rq]int{}}
 	g.c = sync.NewCond(&g.mu)
-	time.AfterFunc(d, func() {
+	time.AfterFunc(hx.D(d), func() { // 10x when the case is re-run alone
 		g.mu.Lock()
+		if !g.expired && g.active > 0 {
+			g.byTimer = true
+		}
 		g.expired = true
 		g.c.Broadcast()
 		g.mu.Unlock()
 	})
 	return g
+}
+
+func (g *rgroup) timedOut() bool {
+	g.mu.Lock()
+	defer g.mu.Unlock()
+	return g.byTimer
 }
 
 func (g *rgroup) stalled() bool {
@@ -460,11 +471,14 @@ func rPair(victim func(conn net.Conn) *gmtls.Conn, attacker func(conn net.Conn) 
 	go func() { wg.Wait(); close(done) }()
 	select {
 	case <-done:
-	case <-time.After(7 * time.Second):
+	case <-time.After(hx.D(7 * time.Second)):
 		a.Close()
 		return "HANG", "deadline"
 	}
 	a.Close()
+	if grp.timedOut() {
+		return "HANG", "pipe deadline (clock), not a stall"
+	}
 	if strings.HasPrefix(alog, "SCRIPTED PEER PANIC") {
 		return "DRIVERBUG", alog
 	}
